@@ -13,11 +13,13 @@
      the positions of verified filters that match a script registered below the end of the batch; the scripts'
      numbers are only raised when none matched and nothing is pending in memory.
    - [C06_progress_monotone].
+   - [C06_latest_hashes_quorum]: the hashes trusted after the finalized check point are voted among the proven peers; each
+     one, with all before it, is reported by at least the required number of them (Model/LatestHashes.v).
    What the model cannot show, because the code does not do it: that the block hash carried next to a matching
    filter is the hash of the proven-chain block at that height (known finding
    C06-substituted-block-hash-skips-activity, exhibited by the correspondence op). *)
 From Coq Require Import NArith List.
-From LC Require Import Filters FiltersProofs.
+From LC Require Import LatestHashes CheckPointsProofs Filters FiltersProofs.
 Import ListNotations.
 Open Scope N_scope.
 
@@ -77,6 +79,15 @@ Print Assumptions C06_chain_check_exact.
 Theorem C06_progress_monotone : forall w m o, execute w m = Ok o -> fw_min w <= fo_min o.
 Proof. exact execute_min_monotone. Qed.
 Print Assumptions C06_progress_monotone.
+
+(* every hash the client trusts after the finalized check point, together with all trusted hashes before it, is reported by
+   at least [required] proven peers *)
+Theorem C06_latest_hashes_quorum :
+  forall required peers chosen k,
+    (k < length (fst (latest_hashes required peers chosen)))%nat ->
+    (required <= length (filter (agrees_from 0 (firstn (S k) (fst (latest_hashes required peers chosen)))) peers))%nat.
+Proof. exact latest_hashes_quorum. Qed.
+Print Assumptions C06_latest_hashes_quorum.
 
 (* the accepting case is inhabited: an authentic two-filter batch after the finalized check point, second filter matching *)
 Example C06_accepts_authentic_batch :
